@@ -79,6 +79,18 @@ extern int64_t vf_cfg[VF_CFG_N][VF_CFG_M];
 void vf_cfg_set(uint32_t which, uint32_t idx, uint64_t val);
 uint64_t vf_cfg_get(uint32_t which, uint32_t idx);
 
+/* ---- sequential models of the threading primitives used by vstl <mutex>/<condition_variable>/<thread> ---- */
+void vf_mutex_lock(uint32_t* m);
+void vf_mutex_unlock(uint32_t* m);
+void vf_cv_wait(uint8_t* cv, uint32_t* m);
+void vf_cv_notify(uint8_t* cv, uint32_t all);
+void vf_thread_spawn(void (*fn)(uint8_t*), uint8_t* arg);
+uint32_t vf_nondet_int(void);
+uint64_t vf_nondet_u64(void);
+/* ---- ostream hook (only with -DVSTL_OSTREAM_HOOK) ---- */
+void vf_os_write(uint8_t* os, uint8_t* s, uint64_t n);
+void vf_os_int(uint8_t* os, uint64_t v);
+
 void vf_global_ctors(void);
 #ifdef __cplusplus
 }
